@@ -283,12 +283,15 @@ def gen_group(rng: random.Random, tier: str) -> dict:
     val = 0
     for _ in range(rng.choice([4, 10, 25, 50])):
         t += rng.choice([0, 1, 5, 20, 100, int(rebalance_delay * 1000)])
-        kind = rng.choices(["join", "leave", "poll", "commit", "append", "stale_commit"], weights=[3, 2, 4, 3, 5, 1])[0]
+        kind = rng.choices(["join", "leave", "poll", "commit", "append", "stale_commit", "seek"], weights=[3, 2, 4, 3, 5, 1, 1])[0]
         if kind == "append":
             ops.append({"t": t, "op": "append", "key": rng.choice(keys), "val": val})
             val += 1
         elif kind == "poll":
             ops.append({"t": t, "op": "poll", "m": rng.randrange(nmem), "max": rng.choice([1, 2, 5, 100])})
+        elif kind == "seek":
+            # purely local: the member rewinds / clears its own read positions, nothing is committed
+            ops.append({"t": t, "op": "seek", "m": rng.randrange(nmem), "mode": rng.choice(["rewind", "clear", "drop"])})
         else:
             ops.append({"t": t, "op": kind, "m": rng.randrange(nmem)})
     calls = []
@@ -303,6 +306,8 @@ def gen_group(rng: random.Random, tier: str) -> dict:
         "poll_latency": rng.choice([0.0, 0.001, 0.02]),
         "ops": ops,
         "strategy_calls": calls,
+        # members that hand their live `position` dict to commit() (and keep mutating it afterwards)
+        "live_dict_members": [i for i in range(nmem) if rng.random() < 0.5],
     }
 
 
@@ -315,7 +320,8 @@ class _Member(Entity):
         self.busy = False
         self.backlog = []
         self.position = {}  # partition -> next offset (from what it polled)
-        self.committed = {}  # partition -> last offset it committed
+        self.committed = {}  # partition -> highest offset it committed
+        self.live_dict = False
 
     def handle_event(self, event):
         op = event.context["op"]
@@ -352,17 +358,43 @@ class _Member(Entity):
                 )
                 for r in recs:
                     self.position[r.partition] = max(self.position.get(r.partition, 0), r.offset + 1)
+            elif kind == "commit" and self.live_dict:
+                # commits its live positions dict (the object itself, as `commit(name, self.positions)` does);
+                # entries below what was committed before are stale and must be ignored by the group
+                if self.position:
+                    sent = dict(self.position)
+                    yield from group.commit(self.name, self.position)
+                    for p_, o_ in sent.items():
+                        self.committed[p_] = max(self.committed.get(p_, 0), o_)
+                    self.ctx["live_dict_commits"] = self.ctx.get("live_dict_commits", 0) + 1
+                    hist.append({"op": "live_commit", "m": self.name, "t0": t0, "t1": self.now.nanoseconds, "offsets": sent})
             elif kind == "commit":
                 offs = {p: o for p, o in self.position.items() if o > self.committed.get(p, 0)}
                 if offs:
                     yield from group.commit(self.name, dict(offs))
                     self.committed.update(offs)
                     hist.append({"op": "commit", "m": self.name, "t0": t0, "t1": self.now.nanoseconds, "offsets": dict(offs)})
+            elif kind == "seek":
+                # local only: no commit is sent, the group's committed offsets must not move
+                if self.position:
+                    mode = op.get("mode", "rewind")
+                    if mode == "clear":
+                        self.position.clear()
+                    else:
+                        top = max(self.position, key=lambda p_: self.position[p_])
+                        if mode == "drop":
+                            del self.position[top]
+                        else:
+                            self.position[top] = self.position[top] // 3
+                    self.ctx["local_seeks"] = self.ctx.get("local_seeks", 0) + 1
+                    self.ctx["last_risky"][self.name] = "local-seek"
+                    hist.append({"op": "seek", "m": self.name, "t0": t0, "t1": t0, "mode": mode})
             elif kind == "stale_commit":
                 # a late / duplicated commit of an older position (e.g. overtaken on the way): must be ignored
                 offs = {p: max(0, o - 1) for p, o in self.committed.items() if o > 0}
                 if offs:
                     self.ctx["stale_commit_sent"] = True
+                    self.ctx["last_risky"][self.name] = "stale-commit"
                     yield from group.commit(self.name, dict(offs))
                     hist.append({"op": "stale_commit", "m": self.name, "t0": t0, "t1": self.now.nanoseconds, "offsets": dict(offs)})
             op = self.backlog.pop(0) if self.backlog else None
@@ -425,6 +457,10 @@ def run_group(case: dict) -> Result:
     )
     ctx = {"group": group, "log": log, "hist": [], "appended": []}
     members = [_Member(f"m{i}", ctx) for i in range(case["n_members"])]
+    ctx["last_risky"] = {}
+    for i in case.get("live_dict_members", []):
+        if i < len(members):
+            members[i].live_dict = True
     prod = _Producer("producer", ctx)
     ops = sorted(case["ops"], key=lambda o: o["t"])
     t_last = ops[-1]["t"] if ops else 1
@@ -435,11 +471,39 @@ def run_group(case: dict) -> Result:
         target = prod if op["op"] == "append" else members[op["m"]]
         sim.schedule(Event(time=Instant(op["t"] * MS), event_type="op", target=target, context={"op": op}))
 
-    mon = {"inst_union": {}, "gen": group.generation, "prev_t": 0, "committed": {}, "assign_snaps": [], "rebalances": 0, "ok": True}
+    mon = {"regressed": set(), "inst_union": {}, "gen": group.generation, "prev_t": 0, "committed": {}, "assign_snaps": [], "rebalances": 0, "ok": True}
     parts = list(range(nparts))
 
+    def sample_committed(t, asg):
+        """Committed offset per (member, owned partition) = high watermark - consumer_lag; must never decrease."""
+        for m in asg:
+            lag = group.consumer_lag(m)
+            for pid, lg in lag.items():
+                c = log.high_watermark(pid) - lg
+                key = (m, pid)
+                res.count("committed_offsets_sampled")
+                if key in mon["committed"] and c < mon["committed"][key][0] and key not in mon["regressed"]:
+                    mon["regressed"].add(key)
+                    risky = ctx["last_risky"].get(m)
+                    if risky == "local-seek":
+                        shp = "after-local-change-of-the-dict-passed-to-commit/no-commit-sent"
+                    elif ctx.get("stale_commit_sent"):
+                        shp = "after-stale-or-duplicated-commit"
+                    else:
+                        shp = shape
+                    res.add(
+                        "committed-offset-regressed",
+                        comp,
+                        shp,
+                        f"member {m} partition {pid}: committed {mon['committed'][key][0]} (seen {mon['committed'][key][1]}ns) -> {c} at {t}ns "
+                        f"(last risky client action of {m}: {risky}; commits that carry a lower offset must be ignored)",
+                    )
+                mon["committed"][key] = (max(c, mon["committed"].get(key, (0, 0))[0]), t)
+
     def after_event(_event):
-        for m_, ps_ in group.assignments.items():
+        cur_asg = group.assignments
+        sample_committed(group.now.nanoseconds, cur_asg)
+        for m_, ps_ in cur_asg.items():
             mon["inst_union"].setdefault(m_, set()).update(ps_)
         g = group.generation
         if g != mon["gen"]:
@@ -465,21 +529,7 @@ def run_group(case: dict) -> Result:
             if len(ms) > 1 and mon["ok"]:
                 res.add("partition-owned-twice", comp, shape, f"t={t}ns partition {pid} owned by {ms}")
                 mon["ok"] = False
-        for m in asg:
-            lag = group.consumer_lag(m)
-            for pid, lg in lag.items():
-                c = log.high_watermark(pid) - lg
-                key = (m, pid)
-                res.count("committed_offsets_sampled")
-                if key in mon["committed"] and c < mon["committed"][key][0]:
-                    res.add(
-                        "committed-offset-regressed",
-                        comp,
-                        "after-stale-or-duplicated-commit" if ctx.get("stale_commit_sent") else shape,
-                        f"member {m} partition {pid}: committed {mon['committed'][key][0]} (seen {mon['committed'][key][1]}ns) -> {c} at {t}ns "
-                        f"although the member only commits increasing offsets",
-                    )
-                mon["committed"][key] = (max(c, mon["committed"].get(key, (0, 0))[0]), t)
+        sample_committed(t, asg)
 
     def on_advance(new_time):
         end_of_instant(mon["prev_t"])
@@ -534,7 +584,7 @@ def run_group(case: dict) -> Result:
                 if offs != list(range(offs[0], offs[0] + len(offs))):
                     res.add("poll-not-in-offset-order", comp, shape, f"{m} partition {pid}: offsets {offs}")
                 want = hrec["committed"].get(pid, 0)
-                if offs[0] != want and not (ctx.get("stale_commit_sent") and offs[0] < want):  # root cause reported as committed-offset-regressed
+                if offs[0] != want and (m, pid) not in mon["regressed"] and not (ctx.get("stale_commit_sent") and offs[0] < want):  # root cause reported as committed-offset-regressed
                     res.add(
                         "poll-not-from-committed-offset",
                         comp,
